@@ -43,18 +43,20 @@ def apeLoadFile : Bytes :=
 example : (apeLoadM {} { data := apeLoadFile }).1 = .ok ({ start := 40, endd := 113, isAtStart := false }, [1, 0, 0, 0, 0, 0, 0, 0, 0x41]) := by
   decide +kernel
 
-/-- an IOError at call 1 (`seek(-32, 2)`, swallowed by `except IOError`) or a short read of the footer preamble
-(call 2) end in "no tag found": APENoHeaderError, a MutagenError -/
+/-- an IOError at call 2 or 3 (the `tell()` and the `seek(-32, 1)` of `_seek_back(fileobj, 32)`, swallowed by
+`except IOError`) or a short read of the footer preamble (call 4) end in "no tag found": APENoHeaderError, a
+MutagenError (the calls: 0 `read(0)`, 1 `seek(0, 2)`, 2 `tell()`, 3 `seek(-32, 1)`, 4 `read(8)`, …) -/
 theorem ape_load_swallowed_fault_is_no_header :
-    (apeLoadM { failAt := fun i => if i = 1 then some .io else none } { data := apeLoadFile }).1 = .error .mutagen ∧
-    (apeLoadM { shortAt := fun i => if i = 2 then some 7 else none } { data := apeLoadFile }).1 = .error .mutagen := by
+    (apeLoadM { failAt := fun i => if i = 2 then some .io else none } { data := apeLoadFile }).1 = .error .mutagen ∧
+    (apeLoadM { failAt := fun i => if i = 3 then some .io else none } { data := apeLoadFile }).1 = .error .mutagen ∧
+    (apeLoadM { shortAt := fun i => if i = 4 then some 7 else none } { data := apeLoadFile }).1 = .error .mutagen := by
   decide +kernel
 
 /-- a short read of the tag body (the last call) is not noticed by the program: fewer bytes are handed to `__parse_tag`
 (which then raises APEBadItemError or returns fewer items); a read of 0 bytes is "no tag" -/
-example : (apeLoadM { shortAt := fun i => if i = 11 then some 4 else none } { data := apeLoadFile }).1 =
+example : (apeLoadM { shortAt := fun i => if i = 14 then some 4 else none } { data := apeLoadFile }).1 =
       .ok ({ start := 40, endd := 113, isAtStart := false }, [1, 0, 0, 0]) ∧
-    (apeLoadM { shortAt := fun i => if i = 11 then some 0 else none } { data := apeLoadFile }).1 = .error .mutagen := by
+    (apeLoadM { shortAt := fun i => if i = 14 then some 0 else none } { data := apeLoadFile }).1 = .error .mutagen := by
   decide +kernel
 
 /-- an IOError at call 0 (`verify_fileobj`): ValueError -/
